@@ -452,7 +452,8 @@ Qed.
 Theorem b2m_prefix_link dvars s L :
   Inv s → Counts s L → last_len s = None → tape s = [] →
   (∀ u, u ∈ roots s → held L u) → dvars_wf dvars s →
-  ∃ s2, (collect_garbage None ;;; reorder (Some (list_to_map (b2m_b2s dvars)))) s = (Ok tt, s2) ∧
+  ∃ s1 s2, collect_garbage None s = (Ok tt, s1) ∧
+    reorder (Some (list_to_map (b2m_b2s dvars))) s1 = (Ok tt, s2) ∧
     Inv s2 ∧ Counts s2 L ∧ last_len s2 = None ∧ tape s2 = [] ∧ nozero s2 ∧
     keepsH L s s2 ∧ vars s2 = list_to_map (b2m_b2s dvars) ∧
     dvars_wf dvars s2 ∧ b2m_wf dvars s2.
@@ -478,10 +479,9 @@ Proof.
   pose proof (target_nodup dvars s1 Hdw1) as Hnd.
   assert (Hord : ∀ b k, order !! b = Some k ↔ b2m_target dvars !! k = Some b).
   { intros b k. by apply imap_index_lookup. }
-  rewrite (bind_ok _ _ _ _ _ Eg).
   destruct (reorder (Some order) s1) as [r s2] eqn:Er.
   destruct (nt_reorder (Some order) s1 r s2 Ht1 Er) as [Ht2 Hne].
-  cbn [reorder] in Er.
+  pose proof Er as Er0. cbn [reorder] in Er.
   destruct (sort_to_order_correct order s1 L r s2 ltac:(by split_and!)) as [?|(->&HStp&Ev2&_)];
     [| | | |exact Er|done|].
   - apply stdpp.sets.set_eq. intros b. unfold order. rewrite dom_list_to_map_L, elem_of_list_to_set.
@@ -491,7 +491,7 @@ Proof.
     by eapply lookup_lt_Some.
   - done.
   - destruct HStp as ((HI2&HC2&Hoff2)&Hnv2&HK2&Hnz2).
-    exists s2. split; [done|].
+    exists s1, s2. split; [done|]. split; [done|].
     assert (Hdw2 : dvars_wf dvars s2).
     { apply (dvars_wf_vars dvars s1); [|done]. rewrite Ev2.
       apply stdpp.sets.set_eq. intros b. unfold order. rewrite dom_list_to_map_L, elem_of_list_to_set.
@@ -566,4 +566,465 @@ Proof.
     { apply elem_of_cons in Hx as [->|Hx]; [right; left|].
       apply elem_of_cons in Hx as [->|Hx]; [by left|right; by right]. }
     destruct Hx' as [->|Hx']; [lia|]. pose proof (IH x Hx'). lia.
+Qed.
+
+Definition keep_body (dvars : dvars_t) (b2s : list (nat * nat)) (s : st) :
+    gset positive → positive * triple → MS (gset positive) :=
+  fun (keep : gset positive) '(u, t) =>
+      let p := b2m_preds s u in
+      rc <- ref (Z.pos u) ;;
+      if decide (length (remove_dups p) < rc) then ret (keep ∪ {[u]}) else
+      bit <- var_at_level (t_lvl t) ;;
+      var <- of_opt EKey (Mdd.assoc (b2v dvars) bit) ;;
+      bits <- of_opt EKey (option_map snd (Mdd.assoc dvars var)) ;;
+      lsb <- of_opt EKey (head bits) ;;
+      min_level <- of_opt EKey (Mdd.assoc b2s lsb) ;;
+      match List.map (fun q => lvl_of s (Z.pos q)) p with
+      | [] => raise EValue
+      | l :: ls =>
+          if decide (foldr Nat.min l ls < min_level) then ret (keep ∪ {[u]}) else ret keep
+      end.
+Lemma b2m_keep_eq dvars b2s s :
+  b2m_keep dvars b2s s = foldM (keep_body dvars b2s s) ∅ (map_to_list (succ s)).
+Proof. reflexivity. Qed.
+
+Section total.
+Context (dvars : dvars_t) (s : st) (L : positive → nat).
+Context (HI : Inv s) (HC : Counts s L) (Hoff : last_len s = None) (Hnz : nozero s).
+Context (HL1 : 0 < L 1%positive).
+Context (Hdw : dvars_wf dvars s) (Hv : vars s = list_to_map (b2m_b2s dvars)).
+Context (Hwf : b2m_wf dvars s).
+
+Lemma node_var u t : succ s !! u = Some t → u ≠ 1%positive →
+  ∃ bit var j bits, lvl2var s !! t_lvl t = Some bit ∧
+    Mdd.assoc (b2v dvars) bit = Some var ∧ Mdd.assoc dvars var = Some (j, bits) ∧
+    (var, (j, bits)) ∈ dvars ∧ bit ∈ bits ∧ ilvl dvars s (t_lvl t) = j.
+Proof.
+  intros Hu Hu1. destruct (inv_node _ HI _ _ Hu Hu1) as (Hlt&_).
+  apply (inv_lvls _ HI) in Hlt as [bit Hbit].
+  assert (bit ∈ (b2v dvars).*1) as Hb.
+  { apply (dw_decl _ _ Hdw). exists (t_lvl t). by apply (inv_vars _ HI). }
+  apply elem_of_list_fmap in Hb as ([bit' var]&->&Hb). cbn in Hbit.
+  pose proof Hb as (j&bits&Hin&Hbb)%b2v_elem.
+  exists bit', var, j, bits. split_and!; try done.
+  - by apply (b2v_assoc dvars s Hwf).
+  - by apply (dvars_assoc dvars s Hwf).
+  - by apply (ilvl_bit dvars s Hwf (t_lvl t) bit' var j bits).
+Qed.
+
+Lemma zone_min var j bits bit : (var, (j, bits)) ∈ dvars → bit ∈ bits →
+  ∃ lsb ml, head bits = Some lsb ∧ Mdd.assoc (b2m_b2s dvars) lsb = Some ml ∧
+            ilvl dvars s ml = j ∧ ml < nvars s.
+Proof.
+  intros Hin Hb. destruct bits as [|lsb bits']; [by apply elem_of_nil in Hb|].
+  assert (lsb ∈ b2m_target dvars) as [ml Hml]%elem_of_list_lookup.
+  { apply (target_elem dvars s Hdw). apply elem_of_list_fmap. exists (lsb, var). split; [done|].
+    apply b2v_elem. exists j, (lsb :: bits'). split; [done|left]. }
+  exists lsb, ml. split_and!; [done| | |].
+  - rewrite assoc_alist. apply alist_get_nodup.
+    + rewrite b2s_fst. apply (target_nodup dvars s Hdw).
+    + unfold b2m_b2s. apply elem_of_lookup_imap. by exists ml, lsb.
+  - apply (ilvl_target dvars s ml lsb j var (lsb :: bits') Hdw HI Hv Hml Hin). left.
+  - rewrite <- (target_length dvars s Hdw). by eapply lookup_lt_Some.
+Qed.
+
+Lemma ref_node u t : succ s !! u = Some t →
+  ref (Z.pos u) s = (Ok (indeg (succ s) u + L u), s).
+Proof.
+  intros Hu. unfold ref. rewrite decide_False by done. rewrite absn_pos.
+  apply getref_ok. apply HC. apply elem_of_dom. by eexists.
+Qed.
+
+(** the selection loop never fails; it selects the held nodes and the nodes
+    that have a parent in a zone above their own *)
+Lemma keep_fold l : (∀ x, x ∈ l → x ∈ map_to_list (succ s)) → ∀ acc : gset positive,
+  ∃ K : gset positive, foldM (keep_body dvars (b2m_b2s dvars) s) acc l s = (Ok K, s) ∧
+    acc ⊆ K ∧
+    ∀ u t, (u, t) ∈ l →
+      (0 < L u → u ∈ K) ∧
+      (∀ w tw, succ s !! w = Some tw → w ≠ 1%positive →
+         (absn (t_lo tw) = u ∨ absn (t_hi tw) = u) →
+         ilvl dvars s (t_lvl tw) < ilvl dvars s (t_lvl t) → u ∈ K).
+Proof.
+  induction l as [|[u t] l IH]; intros Hl acc.
+  { exists acc. split; [done|]. split; [done|]. intros u t Hin. by apply elem_of_nil in Hin. }
+  pose proof (Hl _ ltac:(left)) as Hu%elem_of_map_to_list.
+  assert (Hstep : ∃ K1 : gset positive, keep_body dvars (b2m_b2s dvars) s acc (u, t) s = (Ok K1, s) ∧
+            acc ⊆ K1 ∧ (0 < L u → u ∈ K1) ∧
+            (∀ w tw, succ s !! w = Some tw → w ≠ 1%positive →
+               (absn (t_lo tw) = u ∨ absn (t_hi tw) = u) →
+               ilvl dvars s (t_lvl tw) < ilvl dvars s (t_lvl t) → u ∈ K1)).
+  { unfold keep_body. cbv zeta. rewrite (bind_ok _ _ _ _ _ (ref_node u t Hu)).
+    pose proof (preds_le_indeg s u HI) as Hle.
+    destruct (decide (length (remove_dups (b2m_preds s u)) < indeg (succ s) u + L u)) as [Hlt|Hge].
+    { exists (acc ∪ {[u]}). split; [done|]. split; [set_solver|]. split; intros; set_solver. }
+    assert (HLu : L u = 0) by lia.
+    assert (Hu1 : u ≠ 1%positive) by (intros ->; lia).
+    destruct (node_var u t Hu Hu1) as (bit&var&j&bits&Hbit&Hvar0&Hvar1&Hin&Hbb&Hil).
+    assert (Hvl : var_at_level (t_lvl t) s = (Ok bit, s))
+      by (unfold var_at_level; cbn [bind get]; by rewrite Hbit).
+    rewrite (bind_ok _ _ _ _ _ Hvl). rewrite Hvar0. rewrite (bind_ok _ _ s var s) by done.
+    rewrite Hvar1. cbn [option_map snd]. rewrite (bind_ok _ _ s bits s) by done.
+    destruct (zone_min var j bits bit Hin Hbb) as (lsb&ml&Hhead&Hml&Hilm&Hmlt).
+    rewrite Hhead. rewrite (bind_ok _ _ s lsb s) by done.
+    rewrite Hml. rewrite (bind_ok _ _ s ml s) by done.
+    (* there is a predecessor *)
+    assert (0 < indeg (succ s) u) as Hind.
+    { assert (Hud : u ∈ dom (succ s)) by (apply elem_of_dom; by eexists).
+      pose proof (Hnz u Hud Hu1) as Hr. destruct HC as [HC1 _]. rewrite (HC1 u Hud), HLu in Hr.
+      destruct (indeg (succ s) u); [|lia]. by destruct Hr. }
+    destruct (preds_of_indeg s u HI Hind) as [w0 Hw0].
+    destruct (List.map (fun q => lvl_of s (Z.pos q)) (b2m_preds s u)) as [|l0 ls] eqn:Emap.
+    { destruct (b2m_preds s u); [by apply elem_of_nil in Hw0|done]. }
+    destruct (decide (foldr Nat.min l0 ls < ml)) as [Hmin|Hmin].
+    - exists (acc ∪ {[u]}). split; [done|]. split; [set_solver|]. split; intros; set_solver.
+    - exists acc. split; [done|]. split; [done|]. split; [lia|].
+      intros w tw Hw Hw1 Hch Hil'. exfalso. apply Hmin.
+      assert (w ∈ b2m_preds s u) as Hwp by (apply elem_of_preds; by exists tw).
+      assert (lvl_of s (Z.pos w) ∈ l0 :: ls) as Hlw.
+      { rewrite <- Emap. apply elem_of_list_In.
+        apply (in_map (fun q => lvl_of s (Z.pos q))). by apply elem_of_list_In. }
+      pose proof (foldr_min_le l0 ls _ Hlw) as Hle'.
+      assert (lvl_of s (Z.pos w) = t_lvl tw) as Elw by (unfold lvl_of; by rewrite absn_pos, Hw).
+      assert (t_lvl tw < ml); [|lia].
+      destruct (decide (t_lvl tw < ml)) as [|Hnlt]; [done|]. exfalso.
+      destruct (inv_node _ HI _ _ Hw Hw1) as (Hlw'&_).
+      pose proof (bw_mono _ _ Hwf ml (t_lvl tw) ltac:(lia) Hlw'). lia. }
+  destruct Hstep as (K1&E1&Hsub1&Hh1&Hp1).
+  destruct (IH ltac:(intros; apply Hl; by right) K1) as (K&EK&HsubK&HK).
+  exists K. split; [cbn [foldM]; by rewrite (bind_ok _ _ _ _ _ E1)|]. split; [set_solver|].
+  intros u' t' Hin. apply elem_of_cons in Hin as [[= -> ->]|Hin]; [|by apply HK].
+  split; [intros; apply HsubK; auto|]. intros w tw Hw Hw1 Hch Hil. apply HsubK. by eapply Hp1.
+Qed.
+
+Lemma keep_total : ∃ K : gset positive,
+  b2m_keep dvars (b2m_b2s dvars) s s = (Ok K, s) ∧
+  ∀ u t, succ s !! u = Some t →
+    (0 < L u → u ∈ K) ∧
+    (∀ w tw, succ s !! w = Some tw → w ≠ 1%positive →
+       (absn (t_lo tw) = u ∨ absn (t_hi tw) = u) →
+       ilvl dvars s (t_lvl tw) < ilvl dvars s (t_lvl t) → u ∈ K).
+Proof.
+  rewrite b2m_keep_eq. destruct (keep_fold (map_to_list (succ s)) ltac:(done) ∅) as (K&EK&_&HK).
+  exists K. split; [done|]. intros u t Hu. apply HK. by apply elem_of_map_to_list.
+Qed.
+End total.
+
+Section total2.
+Context (dvars : dvars_t) (s : st) (L : positive → nat).
+Context (HI : Inv s) (HC : Counts s L) (Hoff : last_len s = None) (Hnz : nozero s).
+Context (HL1 : 0 < L 1%positive).
+Context (Hdw : dvars_wf dvars s) (Hv : vars s = list_to_map (b2m_b2s dvars)).
+Context (Hwf : b2m_wf dvars s).
+Context (K : gset positive).
+Context (HK : ∀ u t, succ s !! u = Some t →
+    (∀ w tw, succ s !! w = Some tw → w ≠ 1%positive →
+       (absn (t_lo tw) = u ∨ absn (t_hi tw) = u) →
+       ilvl dvars s (t_lvl tw) < ilvl dvars s (t_lvl t) → u ∈ K)).
+
+(** the levels assigned by one dict of [_enumerate_integer bits] *)
+Lemma zone_dict var j bits d : (var, (j, bits)) ∈ dvars → d.*1 = bits →
+  ∃ lv : gmap nat bool,
+    map_to_level_dict true d (s <| rctx := true |>) = (Ok lv, s <| rctx := true |>) ∧
+    ∀ l, is_Some (lv !! l) ↔ l < nvars s ∧ ilvl dvars s l = j.
+Proof.
+  intros Hin Hd.
+  destruct (mtld_name_ok (s <| rctx := true |>) d) as [lv Hlv].
+  { intros key b Hkb. change (vars (s <| rctx := true |>)) with (vars s).
+    apply (dw_decl _ _ Hdw). apply elem_of_list_fmap. exists (key, var). split; [done|].
+    apply b2v_elem. exists j, bits. split; [done|]. rewrite <- Hd. apply elem_of_list_fmap.
+    by exists (key, b). }
+  exists lv. split; [done|].
+  pose proof (mtld_name_inv _ _ _ _ Hlv) as [Hlv1 Hlv2].
+  change (vars (s <| rctx := true |>)) with (vars s) in Hlv1, Hlv2.
+  intros l. split.
+  - intros [b Hb]. destruct (Hlv1 l b Hb) as (key&Hkd&Hkl).
+    apply (inv_vars _ HI) in Hkl. split; [apply (inv_lvls _ HI); by eexists|].
+    apply (ilvl_bit dvars s Hwf l key var j bits); [done|done|].
+    rewrite <- Hd. apply elem_of_list_fmap. by exists (key, b).
+  - intros [Hl Hil].
+    destruct (ilvl_inv dvars s Hwf l j Hil (bw_lt _ _ Hwf var j bits Hin)) as (b'&v'&bits'&Hb'&Hv'&Hin').
+    destruct (dw_level_inj dvars s Hdw _ _ _ _ _ Hv' Hin) as [-> ->].
+    assert (b' ∈ d.*1) as ([key bv]&->&Hkd)%elem_of_list_fmap by (by rewrite Hd).
+    destruct (Hlv2 key bv Hkd) as (l'&Hl'&Hs). cbn in Hb'.
+    apply (inv_vars _ HI) in Hb'. by assert (l' = l) as -> by congruence.
+Qed.
+
+(** the cofactors of a node by every value of its integer variable: they
+    succeed, leave the manager unchanged, and reach selected nodes below *)
+Lemma zone_cofactors u t bit var j bits :
+  succ s !! u = Some t → u ≠ 1%positive → lvl2var s !! t_lvl t = Some bit →
+  (var, (j, bits)) ∈ dvars → bit ∈ bits →
+  ∀ ds, (∀ d, d ∈ ds → d.*1 = bits) →
+  ∃ zs, mapM (fun d => cofactor (Z.pos u) true d) ds s = (Ok zs, s) ∧
+    ∀ z, z ∈ zs → z ≠ 0%Z ∧
+      (absn z = 1%positive ∨
+       ∃ tz, succ s !! absn z = Some tz ∧ absn z ≠ 1%positive ∧
+             t_lvl t < t_lvl tz ∧ absn z ∈ K).
+Proof.
+  intros Hu Hu1 Hbit Hin Hbb.
+  assert (Hvu : valid s (Z.pos u)) by (split; [done|]; rewrite absn_pos; by eexists).
+  assert (Hlu : lvl_of s (Z.pos u) = t_lvl t) by (unfold lvl_of; by rewrite absn_pos, Hu).
+  assert (Hilu : ilvl dvars s (t_lvl t) = j) by (by apply (ilvl_bit dvars s Hwf _ bit var j bits)).
+  destruct (inv_node _ HI _ _ Hu Hu1) as (Hltu&_).
+  induction ds as [|d ds IH]; intros Hds.
+  { exists []. split; [done|]. intros z Hz. by apply elem_of_nil in Hz. }
+  destruct (zone_dict var j bits d Hin (Hds d ltac:(left))) as (lv&Hlv&Hdom).
+  destruct (cofactor_zone s (Z.pos u) d lv HI Hoff Hvu Hlv) as (z&Ez&Hz).
+  { intros i n Hi Hn [Hn1 Hn2]%Hdom. apply Hdom. split; [lia|]. rewrite Hlu in Hi.
+    pose proof (bw_mono _ _ Hwf (t_lvl t) i Hi ltac:(lia)).
+    pose proof (bw_mono _ _ Hwf i n Hn Hn1). lia. }
+  { intros k Hk%Hdom. apply Hk. }
+  destruct IH as (zs&Ezs&Hzs); [intros; apply Hds; by right|].
+  exists (z :: zs). split.
+  { cbn [mapM]. by rewrite (bind_ok _ _ _ _ _ Ez), (bind_ok _ _ _ _ _ Ezs). }
+  intros z' Hz'. apply elem_of_cons in Hz' as [->|Hz']; [|by apply Hzs].
+  destruct (zpath_valid s lv _ _ Hz) as [Hvz Hnone].
+  split; [apply Hvz|].
+  destruct (node_cases s HI z Hvz) as [[E _]|(tz&Htz&Hn1&_&Hlz&Hltz&_)]; [by left|right].
+  exists tz. split; [done|]. split; [done|].
+  destruct (zpath_parent s HI lv _ _ Hz) as (w&tw&Hw&Hw1&Hlw&Hsw&Hch).
+  { apply Hdom. rewrite Hlu. done. }
+  apply Hdom in Hsw as [Hlw' Hilw].
+  assert (Hwz : t_lvl tw < t_lvl tz).
+  { destruct (inv_node _ HI _ _ Hw Hw1) as (_&_&_&_&Hll&Hlh&_).
+    rewrite <- Hlz. unfold lvl_of in *. destruct Hch as [E|E]; rewrite E in *; lia. }
+  split; [rewrite Hlu in Hlw; lia|].
+  apply (HK (absn z) tz Htz w tw Hw Hw1 Hch).
+  rewrite Hilw. pose proof (bw_mono _ _ Hwf (t_lvl tw) (t_lvl tz) ltac:(lia) Hltz) as Hm.
+  rewrite Hilw in Hm. destruct (decide (ilvl dvars s (t_lvl tz) = j)) as [E|]; [|lia].
+  exfalso. rewrite Hlz in Hnone.
+  assert (is_Some (lv !! t_lvl tz)) as [? Hs] by (apply Hdom; by split). congruence.
+Qed.
+
+Lemma int_succ_total (umap : list (positive * Z)) : ∀ zs,
+  (∀ z, z ∈ zs → absn z ∈ umap.*1) →
+  ∃ xs, mapM (fun z : Z => x <- of_opt EKey (Mdd.assoc umap (absn z)) ;;
+                ret (if decide (0 < z)%Z then x else (- x)%Z)) zs s = (Ok xs, s).
+Proof.
+  set (f := fun z : Z => x <- of_opt EKey (Mdd.assoc umap (absn z)) ;;
+                ret (if decide (0 < z)%Z then x else (- x)%Z)).
+  induction zs as [|z zs IH]; intros Hzs; [by exists []|].
+  destruct IH as [xs Hxs]; [intros; apply Hzs; by right|].
+  assert (is_Some (Mdd.assoc umap (absn z))) as [x0 Hx0].
+  { rewrite assoc_alist. apply alist_get_is_Some. apply Hzs. left. }
+  assert (Hf : f z s = (Ok (if decide (0 < z)%Z then x0 else (- x0)%Z), s))
+    by (unfold f; by rewrite Hx0).
+  eexists. cbn [mapM]. rewrite (bind_ok _ _ _ _ _ Hf), (bind_ok _ _ _ _ _ Hxs). done.
+Qed.
+
+(** the order oracle accepted by the conversion *)
+Context (order : list positive).
+Context (Hord_nd : NoDup order).
+Context (Hord_set : ∀ u, u ∈ order ↔ u ∈ dom (succ s) ∧ u ≠ 1%positive).
+Context (Hord_sorted : Sorted (fun a b => lvl_of s (Z.pos b) <= lvl_of s (Z.pos a)) order).
+
+(** one iteration never fails *)
+Lemma step_total mdd umap u :
+  B2M dvars s s mdd umap → mtape mdd = [] → 1%positive ∈ umap.*1 → u ∈ order →
+  (∀ z tz, succ s !! z = Some tz → z ≠ 1%positive → z ∈ K →
+           lvl_of s (Z.pos u) < t_lvl tz → z ∈ umap.*1) →
+  ∃ mdd' umap', b2m_step dvars K (mdd, umap) u s = (Ok (mdd', umap'), s) ∧
+    mtape mdd' = [] ∧ (u ∈ K → u ∈ umap'.*1) ∧ (∀ v, v ∈ umap.*1 → v ∈ umap'.*1).
+Proof.
+  intros HB Htape H1 Huo Hdeep. apply Hord_set in Huo as [Hud Hu1].
+  apply elem_of_dom in Hud as [t Hu].
+  unfold b2m_step. destruct (decide (u ∉ K)) as [Hnk|_].
+  { exists mdd, umap. by split_and!. }
+  destruct (node_var dvars s HI Hdw Hwf u t Hu Hu1) as (bit&var&j&bits&Hbit&Hvar0&Hvar1&Hin&Hbb&Hil).
+  rewrite (bind_ok _ _ _ _ _ (getsucc_ok s u t Hu)).
+  assert (Hvl : var_at_level (t_lvl t) s = (Ok bit, s))
+    by (unfold var_at_level; cbn [bind get]; by rewrite Hbit).
+  rewrite (bind_ok _ _ _ _ _ Hvl). rewrite Hvar0. rewrite (bind_ok _ _ s var s) by done.
+  rewrite Hvar1. rewrite (bind_ok _ _ s (j, bits) s) by done.
+  assert (Hlu : lvl_of s (Z.pos u) = t_lvl t) by (unfold lvl_of; by rewrite absn_pos, Hu).
+  assert (Hvu : valid s (Z.pos u)) by (split; [done|]; rewrite absn_pos; by eexists).
+  destruct (zone_cofactors u t bit var j bits Hu Hu1 Hbit Hin Hbb (enumerate_integer bits))
+    as (zs&Ezs&Hzs).
+  { intros d [k Hk]%elem_of_list_lookup. by apply (enumerate_integer_fst bits k). }
+  rewrite (bind_ok _ _ _ _ _ Ezs).
+  destruct (int_succ_total umap zs) as [xs Exs].
+  { intros z Hz. destruct (Hzs z Hz) as [_ [->|(tz&Htz&Hz1&Hlt&HzK)]]; [done|].
+    apply (Hdeep _ tz); try done. by rewrite Hlu. }
+  rewrite (bind_ok _ _ _ _ _ Exs).
+  (* the MDD node: the preconditions of [find_or_add] as in [b2m_step_spec] *)
+  destruct (b2m_cofactors s HI u _ s zs s HI (reflexivity _) Hoff Hvu Ezs) as (_&_&_&HFz).
+  destruct (b2m_int_succ umap zs s xs s Exs) as [_ HFx].
+  assert (Hlen_x : length xs = 2 ^ length bits).
+  { rewrite <- (Forall2_length _ _ _ HFx), <- (Forall2_length _ _ _ HFz).
+    apply enumerate_integer_length. }
+  assert (Hkid : ∀ k x', xs !! k = Some x' → mvalid mdd x' ∧ j < mlvl_of mdd x').
+  { intros k x' Hk.
+    destruct (Forall2_lookup_r _ _ _ _ _ HFx Hk) as (z&Hzk&Hzx).
+    destruct (Forall2_lookup_r _ _ _ _ _ HFz Hzk) as (d&Hdk&Hvz&Hlz&Hlv).
+    destruct (b2m_child dvars s HI Hwf s mdd umap s u t bit var j bits k d z x')
+      as (?&?&_); try done. by rewrite <- Hlu. }
+  pose proof (b_minv _ _ _ _ _ HB) as HM. pose proof (b_mext _ _ _ _ _ HB) as HMe.
+  destruct (m_find_or_add j xs mdd) as [rx mdd'] eqn:Ef.
+  pose proof Ef as Ef'.
+  apply m_find_or_add_spec in Ef' as (_&_&Hfr&Hx); [|done| | |].
+  2:{ intros ->. cbn in Hlen_x. pose proof (Nat.pow_nonzero 2 (length bits)). lia. }
+  2:{ exists var. destruct HMe as [_ <-]. rewrite Hlen_x. by apply (mdd0_vars dvars s Hwf). }
+  2:{ intros x' [k Hk]%elem_of_list_lookup. by apply (Hkid k). }
+  destruct rx as [x|e]; [|by destruct Hx as [_ ?]].
+  exists mdd', (umap ++ [(u, x)]). cbn [ret]. split_and!; [done|by apply Hfr| |].
+  - intros _. rewrite fmap_app. apply elem_of_app. right. left.
+  - intros v Hv'. rewrite fmap_app. apply elem_of_app. by left.
+Qed.
+
+Global Instance lvl_desc_trans : Transitive (fun a b => lvl_of s (Z.pos b) <= lvl_of s (Z.pos a)).
+Proof. intros a b c. lia. Qed.
+
+(** the whole loop *)
+Lemma fold_total : ∀ R P mdd umap, order = P ++ R →
+  B2M dvars s s mdd umap → mtape mdd = [] → 1%positive ∈ umap.*1 →
+  (∀ v, v ∈ P → v ∈ K → v ∈ umap.*1) →
+  ∃ mdd' umap', foldM (b2m_step dvars K) (mdd, umap) R s = (Ok (mdd', umap'), s) ∧
+    B2M dvars s s mdd' umap' ∧ (∀ v, v ∈ order → v ∈ K → v ∈ umap'.*1) ∧
+    (∀ v, v ∈ umap.*1 → v ∈ umap'.*1).
+Proof.
+  induction R as [|u R IH]; intros P mdd umap Eo HB Htape H1 HP.
+  { exists mdd, umap. split; [done|]. split; [done|]. split; [|done]. rewrite Eo, app_nil_r. done. }
+  assert (Huo : u ∈ order) by (rewrite Eo; apply elem_of_app; right; left).
+  destruct (step_total mdd umap u HB Htape H1 Huo) as (mdd1&umap1&E1&Htape1&Hu1&Hmono1).
+  { intros z tz Hz Hz1 HzK Hlt.
+    assert (z ∈ order) as Hzo by (apply Hord_set; split; [apply elem_of_dom; by eexists|done]).
+    rewrite Eo in Hzo. apply elem_of_app in Hzo as [HzP|HzR]; [by apply HP|]. exfalso.
+    assert (Hss : StronglySorted (fun a b => lvl_of s (Z.pos b) <= lvl_of s (Z.pos a)) order)
+      by (apply Sorted_StronglySorted; [apply lvl_desc_trans|exact Hord_sorted]).
+    rewrite Eo in Hss. apply StronglySorted_app_inv_r in Hss.
+    apply StronglySorted_inv in Hss as [_ Hall]. rewrite Forall_forall in Hall.
+    apply elem_of_cons in HzR as [->|HzR].
+    - unfold lvl_of in Hlt. rewrite absn_pos, Hz in Hlt. lia.
+    - pose proof (Hall z HzR) as Hle. cbn in Hle.
+      assert (lvl_of s (Z.pos z) = t_lvl tz) as E by (unfold lvl_of; by rewrite absn_pos, Hz). lia. }
+  pose proof (b2m_step_spec dvars s HI Hwf K s mdd umap u _ _ HB
+                (proj1 (proj1 (Hord_set u) Huo)) E1) as HB1. cbn in HB1.
+  destruct (IH (P ++ [u]) mdd1 umap1) as (mdd'&umap'&E'&HB'&Hall'&Hmono'); try done.
+  { by rewrite <- app_assoc. }
+  { by apply Hmono1. }
+  { intros v Hv' HvK. apply elem_of_app in Hv' as [Hv'|Hv'].
+    - apply Hmono1. by apply HP.
+    - apply elem_of_list_singleton in Hv' as ->. by apply Hu1. }
+  exists mdd', umap'. split; [cbn [foldM]; by rewrite (bind_ok _ _ _ _ _ E1)|].
+  split; [done|]. split; [done|]. intros v Hv'. by apply Hmono', Hmono1.
+Qed.
+End total2.
+
+(** ** The conversion proper never fails *)
+Definition b2m_order_ok (order : list positive) (s : st) : Prop :=
+  NoDup order ∧
+  (list_to_set order : gset positive) =
+    list_to_set (filter (fun u => u ≠ 1%positive) (elements (dom (succ s)))) ∧
+  Sorted (fun a b => lvl_of s (Z.pos b) <= lvl_of s (Z.pos a)) order.
+
+Theorem bdd_to_mdd_tail_total dvars s L order :
+  Inv s → Counts s L → last_len s = None → nozero s → 0 < L 1%positive →
+  dvars_wf dvars s → vars s = list_to_map (b2m_b2s dvars) → b2m_wf dvars s →
+  b2m_order_ok order s →
+  ∃ mdd umap, bdd_to_mdd_tail dvars (b2m_b2s dvars) order s = (Ok (mdd, umap), s) ∧
+    B2M dvars s s mdd umap ∧ ∀ u, 0 < L u → u ∈ umap.*1.
+Proof.
+  intros HI HC Hoff Hnz HL1 Hdw Hv Hwf Hord.
+  destruct (keep_total dvars s L HI HC Hoff Hnz HL1 Hdw Hv Hwf) as (K&EK&HK).
+  unfold bdd_to_mdd_tail. cbn [bind get]. rewrite (bind_ok _ _ _ _ _ EK).
+  rewrite bool_decide_eq_true_2 by exact Hord. cbn [negb].
+  destruct Hord as (Hnd&Hset&Hsorted).
+  assert (Hoset : ∀ u, u ∈ order ↔ u ∈ dom (succ s) ∧ u ≠ 1%positive).
+  { intros u. rewrite <- (elem_of_list_to_set (C := gset positive)), Hset.
+    rewrite elem_of_list_to_set, elem_of_list_filter, elem_of_elements. tauto. }
+  destruct (fold_total dvars s L HI Hoff HL1 Hdw Hwf K (fun u t Hu => proj2 (HK u t Hu))
+              order Hoset Hsorted order [] (b2m_mdd0 dvars) [(1%positive, 1%Z)])
+    as (mdd&umap&Ef&HB&Hall&Hmono); try done.
+  { by apply B2M_start. }
+  { cbn. left. }
+  { intros v Hv'. by apply elem_of_nil in Hv'. }
+  exists mdd, umap. rewrite (bind_ok _ _ _ _ _ Ef). split; [done|]. split; [done|].
+  intros u Hu. destruct (decide (u = 1%positive)) as [->|Hu1].
+  { apply Hmono. cbn. left. }
+  assert (Hud : u ∈ dom (succ s)).
+  { destruct (decide (u ∈ dom (succ s))) as [|Hn]; [done|]. destruct HC as [_ HC2].
+    rewrite (HC2 u Hn) in Hu. lia. }
+  apply Hall; [by apply Hoset|]. apply elem_of_dom in Hud as [t Ht]. by apply (HK u t Ht).
+Qed.
+
+(** ** The full theorem *)
+
+(** the bit assignment induced by an integer assignment, by variable NAME:
+    bit [b] of the integer variable at level [j] gets the value that
+    [_enumerate_integer] gives it in dict number [I j] *)
+Definition bitval (dvars : dvars_t) (I : nat → nat) (b : nat) : bool :=
+  match Mdd.assoc (b2v dvars) b with
+  | Some var => match Mdd.assoc dvars var with
+     | Some (j, bits) =>
+         default false (enumerate_integer bits !! (I j) ≫= fun d => Mdd.assoc d b)
+     | None => false
+     end
+  | None => false
+  end.
+
+Lemma D_bits_of_denv dvars s u I : D s u (bits_of dvars s I) = denv s u (bitval dvars I).
+Proof. reflexivity. Qed.
+
+(** binary digits: first listed bit least significant *)
+Lemma bitval_testbit dvars s I b var j bits p :
+  dvars_wf dvars s → (var, (j, bits)) ∈ dvars → bits !! p = Some b →
+  I j < 2 ^ length bits → bitval dvars I b = Nat.testbit (I j) p.
+Proof.
+  intros Hdw Hin Hp HIj. unfold bitval.
+  rewrite assoc_alist, (alist_get_nodup _ b var (dw_bits _ _ Hdw))
+    by (apply b2v_elem; exists j, bits; split; [done|by eapply elem_of_list_lookup_2]).
+  rewrite assoc_alist, (alist_get_nodup _ var (j, bits) (dw_names _ _ Hdw) Hin).
+  destruct (lookup_lt_is_Some_2 (enumerate_integer bits) (I j)) as [d Hd];
+    [by rewrite enumerate_integer_length|].
+  rewrite Hd. cbn.
+  by rewrite (enumerate_integer_testbit bits (I j) d p b
+                (dw_bits_nodup dvars s Hdw var j bits Hin) Hd Hp).
+Qed.
+
+Theorem bdd_to_mdd_correct dvars order s L r s' :
+  Inv s → Counts s L → last_len s = None → tape s = [] →
+  (∀ u, u ∈ roots s → held L u) → 0 < L 1%positive → dvars_wf dvars s →
+  bdd_to_mdd dvars order s = (r, s') →
+  ∃ s1 s2, collect_garbage None s = (Ok tt, s1) ∧
+    reorder (Some (list_to_map (b2m_b2s dvars))) s1 = (Ok tt, s2) ∧ s' = s2 ∧
+    Inv s' ∧ Counts s' L ∧ last_len s' = None ∧ tape s' = [] ∧ keepsH L s s' ∧
+    ((¬ b2m_order_ok order s2 ∧ r = Err EOracle) ∨
+     (b2m_order_ok order s2 ∧
+      ∃ mdd umap, r = Ok (mdd, umap) ∧ MInv mdd ∧ mextends (b2m_mdd0 dvars) mdd ∧
+        ∀ u, 0 < L u → ∃ x, (u, x) ∈ umap ∧ mvalid mdd x ∧
+          ∀ I, minrange mdd I → MD mdd x I = denv s (Z.pos u) (bitval dvars I))).
+Proof.
+  intros HI HC Hoff Ht Hroots HL1 Hdw Hrun.
+  destruct (b2m_prefix_link dvars s L HI HC Hoff Ht Hroots Hdw)
+    as (s1&s2&Eg&Er&HI2&HC2&Hoff2&Ht2&Hnz2&HK2&Hv2&Hdw2&Hwf2).
+  exists s1, s2. split; [done|]. split; [done|].
+  rewrite bdd_to_mdd_unfold in Hrun. cbv zeta in Hrun.
+  assert (Hbits : mapM (fun j => of_opt EKey (bits_at dvars j)) (seq 0 (length dvars)) s
+                  = (Ok (omap (bits_at dvars) (seq 0 (length dvars))), s)).
+  { apply mapM_of_opt. intros j Hj%elem_of_seq.
+    destruct (dw_level_ex dvars s Hdw j ltac:(lia)) as (v&bits&Hin).
+    rewrite (proj2 (bits_at_Some dvars s Hdw j bits) (ex_intro _ v Hin)). by eexists. }
+  rewrite (bind_ok _ _ _ _ _ Hbits) in Hrun.
+  change (imap (fun k b => (b, k)) (concat (omap (bits_at dvars) (seq 0 (length dvars)))))
+    with (b2m_b2s dvars) in Hrun.
+  rewrite (bind_ok _ _ _ _ _ Eg), (bind_ok _ _ _ _ _ Er) in Hrun.
+  destruct (decide (b2m_order_ok order s2)) as [Hord|Hord].
+  - destruct (bdd_to_mdd_tail_total dvars s2 L order HI2 HC2 Hoff2 Hnz2 HL1 Hdw2 Hv2 Hwf2 Hord)
+      as (mdd&umap&Etail&HB&Hheld).
+    rewrite Etail in Hrun. injection Hrun as <- <-.
+    split; [done|]. split_and!; try done. right. split; [done|].
+    exists mdd, umap. split; [done|]. split; [apply HB|]. split; [apply HB|].
+    intros u Hu. pose proof (Hheld u Hu) as ([u' x]&->&Hin)%elem_of_list_fmap. cbn.
+    exists x. split; [done|].
+    destruct (b_umap _ _ _ _ _ HB _ _ Hin) as (Hvu&Hvx&_&HD). split; [done|].
+    intros I Hr. rewrite HD.
+    + rewrite D_bits_of_denv. destruct (HK2 (Z.pos u')) as (_&_&Hden); [|by apply Hden].
+      split; [done|]. right. by rewrite absn_pos.
+    + intros v l n Hvl. apply (Hr v l n). destruct (b_mext _ _ _ _ _ HB) as [_ <-]. done.
+  - unfold bdd_to_mdd_tail in Hrun. cbn [bind get] in Hrun.
+    destruct (keep_total dvars s2 L HI2 HC2 Hoff2 Hnz2 HL1 Hdw2 Hv2 Hwf2) as (K&EK&_).
+    rewrite (bind_ok _ _ _ _ _ EK) in Hrun.
+    rewrite bool_decide_eq_false_2 in Hrun by exact Hord. cbn [negb] in Hrun.
+    injection Hrun as <- <-. split; [done|]. split_and!; try done. by left.
 Qed.
